@@ -32,7 +32,8 @@ ASSUMPTIONS = [
     "t3t: a Lite-S write-with-MAC whose response was lost cannot be repeated (WCNT advanced); a TagCommandError "
     "with the tag's status flags is accepted there (counted as t3t_c16_nonidempotent_macwrite)",
     "t3t: format()/dump() document that an error response ends their memory probing; a different result after an "
-    "error burst beyond the retry budget is accepted for these two operations only",
+    "error burst beyond the retry budget is accepted for these two operations only (format returning True: Nbr, Nbw, "
+    "Nmaxb not larger than after the fault-free format and not zero, all other attribute fields equal)",
 ]
 
 
@@ -1423,6 +1424,8 @@ def c16_cells(tier):
                     cells.append((kind, name, 2))
                 elif name in NDEF_OPS and kind in ("generic", "standard"):
                     cells.append((kind, name, 1))
+                elif name == "format_default" and kind == "generic":
+                    cells.append((kind, name, 1))       # tag that reads / writes one block per command (Nbr = Nbw = 1)
     return cells
 
 
@@ -1541,16 +1544,27 @@ def c16_op(kind, opname, R, rng, full, variant=0):
     if not ok and "exc" in ref and n == 0:
         return
     positions = list(range(n))
-    if not full and n > 12:
-        # long probing sequences (format, dump): first, last and a random sample of positions in the quick tier
+    # format(): every command of the probing sequence decides one field of the attribute block, a sample of positions
+    # leaves single commands (first Nbr / Nbw probe, read-back of block 0, attribute write) untested -> enumerated
+    sampled = not full and n > 12 and not opname.startswith("format")
+    if sampled:
+        # long dump sequences: first, last and a random sample of positions in the quick tier
         positions = sorted(set([0, 1, n - 2, n - 1] + rng.sample(range(n), 8)))
+    elif opname.startswith("format"):
+        R.count("t3t_c16_format_positions_enumerated", n)
+        R.seen("t3t_c16_format_sequences", "%s/%s/%d:%s" % (kind, opname, variant, _cmd_letters(ref["answered"])))
     for pos in positions:
         for kname in sorted(KINDS):
             for burst in (1, 2, 3, 4):
                 for flavour in ("cmd_lost", "rsp_lost"):
-                    if not full and n > 12 and burst in (1, 4) and flavour == "rsp_lost":
+                    if sampled and burst in (1, 4) and flavour == "rsp_lost":
                         continue
                     c16_judge(kind, opname, ref, (pos, kname, burst, flavour), R, variant)
+
+
+def _cmd_letters(cmds):
+    """command sequence as a word over R(ead) W(rite) P(olling) o(ther)"""
+    return "".join({0x06: "R", 0x08: "W", 0x00: "P"}.get(bytes(c)[1], "o") for c in cmds)
 
 
 def _is_mac_write(cmd):
@@ -1572,6 +1586,20 @@ def c16_judge(kind, opname, ref, fault, R, variant=0):
     always-on clause 'no silently wrong result / memory' (c16_silent)"""
     got = c16_execute(kind, opname, fault, variant)
     nv = _nviol(R)
+    if opname.startswith("format") and got["injected"] > BUDGET:
+        # which command of the probing sequence the persistent error hit (the link is healthy again afterwards)
+        word = _cmd_letters(ref["answered"])
+        if fault[0] < len(word):
+            if word[fault[0]] == "W" and "W" not in word[:fault[0]]:
+                # generic / Standard: first Nbw probe of Type3Tag._format; Lite / Lite-S have no probing phase, their
+                # first write is the first wipe / attribute block write
+                R.count("t3t_c16_format_persistent_at_first_write_probe" if kind in ("generic", "standard") else
+                        "t3t_c16_format_persistent_at_first_write_lite")
+                R.seen("t3t_c16_format_first_write_probe_bursts", "%s/%d/%s" % (kind, got["injected"], fault[3]))
+            elif word[fault[0]] == "R":
+                R.count("t3t_c16_format_persistent_at_read_probe")
+            else:
+                R.count("t3t_c16_format_persistent_at_later_write")
     c16_judge_clauses(kind, opname, ref, got, fault, R, variant)
     if _nviol(R) == nv:
         c16_silent(kind, opname, ref, got, fault, R, variant)
@@ -1597,6 +1625,44 @@ def c16_fresh_ndef(run):
             return None if nd is None else [bytes(nd.octets).hex(), nd.is_readable, nd.is_writeable]
         except Exception as e:      # noqa
             return ["exc", exc_sig(e)]
+
+
+ATTR_SAME = ("ver", "writef", "rwflag", "ln", "rfu")      # fields the probing cannot legitimately change
+ATTR_PROBED = ("nbr", "nbw", "nmaxb")                      # found by reading / writing 'until an error'
+
+
+def c16_format_attr_diff(ref, got, R):
+    """format() returned True in both runs: compare the attribute block (block 0 of the tag memory, decoded by the
+    reference codec) field by field.  An error response ends a probing loop early, so Nbr / Nbw / Nmaxb may be smaller
+    than in the fault-free run, but a tag announced as formatted can be read and written with at least one block per
+    command; version, WriteF, RWFlag, Ln and the checksum do not depend on the probing.
+    -> None | (clause, got fields, fault-free fields)"""
+    b_ref, b_got = ref["image"].get(0), got["image"].get(0)
+    if b_ref is None or b_got is None:
+        return None
+    a_ref, a_got = t3_attr.decode(b_ref), t3_attr.decode(b_got)
+    if not a_ref["checksum_ok"]:
+        return None
+    R.count("t3t_c16_format_attr_fields_compared")
+    show = lambda a: "Ver=%02X Nbr=%d Nbw=%d Nmaxb=%d WriteF=%02X RWFlag=%02X Ln=%d" % (     # noqa: E731
+        a["ver"], a["nbr"], a["nbw"], a["nmaxb"], a["writef"], a["rwflag"], a["ln"])
+    clause = None
+    if not a_got["checksum_ok"]:
+        clause = "checksum"
+    for f in ATTR_PROBED:
+        if clause is None and a_ref[f] > 0 and a_got[f] == 0:
+            clause = f + "-zero"
+    for f in ATTR_PROBED:
+        if clause is None and a_got[f] > a_ref[f]:
+            clause = f + "-larger"
+    for f in ATTR_SAME:
+        if clause is None and a_got[f] != a_ref[f]:
+            clause = f + "-differs"
+    if clause is None:
+        if any(a_got[f] < a_ref[f] for f in ATTR_PROBED):
+            R.count("t3t_c16_format_attr_probed_value_smaller")
+        return None
+    return clause, show(a_got), show(a_ref)
 
 
 def c16_silent(kind, opname, ref, got, fault, R, variant=0):
@@ -1631,13 +1697,19 @@ def c16_silent(kind, opname, ref, got, fault, R, variant=0):
         if "fresh" not in ref:
             ref["fresh"] = c16_fresh_ndef(ref)
         fresh = c16_fresh_ndef(got)
+        bad = c16_format_attr_diff(ref, got, R)
+        attrs = " (attribute block %s, fault-free %s)" % bad[1:] if bad else ""
         R.count("t3t_c16_format_result_verified_by_fresh_reader")
         if fresh != ref["fresh"]:
             how = "no-ndef" if fresh is None else "other-access-flags" if (
                 isinstance(ref["fresh"], list) and fresh[1:] != ref["fresh"][1:]) else "other-message"
             R.violation(sigbase + "silent-wrong-memory/fresh-reader-finds-" + how,
-                        what + "returned %r like the fault-free run, but a fresh reader finds %r instead of %r" % (
-                            res, fresh, ref["fresh"]), case)
+                        what + "returned %r like the fault-free run, but a fresh reader finds %r instead of %r%s" % (
+                            res, fresh, ref["fresh"], attrs), case)
+        elif bad:
+            # what nfcpy's own reader does not reveal (e.g. Nbw / Nmaxb larger than the tag supports)
+            R.violation(sigbase + "silent-wrong-memory/attribute-" + bad[0], what + "returned %r like the fault-free run, "
+                        "but wrote the attribute block %s instead of %s" % (res, bad[1], bad[2]), case)
         return
     R.violation(sigbase + "silent-wrong-memory", what + "returned the fault-free result %r but the final tag memory "
                 "differs" % (str(res)[:60],), case)
